@@ -133,14 +133,12 @@ def ob_m_fixed(ob):
     twin = str(sol.check())
     if twin != 'sat':
         return result('error', notes=['twin ' + twin], queries=1)
-    if pname.endswith('_clean'):
-        comp = pname[:2].upper()
-        tok = A.canonical(comp)
-        whole = z3.Or(*[z3.And(M.startv == tpl.lo(c), M.endv == tpl.hi(c), tpl.hi(c) - tpl.lo(c) == 3,
-                               T.at(tpl.lo(c)) == ord(tok[0]), T.at(tpl.lo(c) + 1) == ord(tok[1])) for c in ('c0', 'c1', 'c2')])
-        sol.add(M.matched, z3.Not(whole))
-    else:
-        sol.add(M.matched)
+    # a scrubber may re-match a canonical token of its own component (the substitution is then the identity); nothing else
+    comp = pname[:2].upper() if pname[1] in 'ew' else pname[0].upper()
+    tok = A.canonical(comp)
+    whole = z3.Or(*[z3.And(M.startv == tpl.lo(c), M.endv == tpl.hi(c), tpl.hi(c) - tpl.lo(c) == len(tok),
+                           *[T.at(tpl.lo(c) + k) == ord(ch) for k, ch in enumerate(tok)]) for c in ('c0', 'c1', 'c2')])
+    sol.add(M.matched, z3.Not(whole))
     r = str(sol.check())
     dt = time.time() - t0
     info = dict(queries=2, distinct=1, solver_s=round(dt, 2), states=M.n_states, transitions=M.n_transitions,
@@ -235,16 +233,32 @@ def ob_api_chains(ob):
     from spec import aliquot_spellings as A
     n = ob.params['n']
     first = ob.params.get('first')
-    cfgs = ('', 'clean_qq', 'qq_depth.1', 'qq_depth_min.3,break_halves', 'clean_qq,qq_depth_max.2')
+    second = ob.params.get('second')
+    small = ob.params.get('small', False)
+    cfgs = ('', 'clean_qq') if small else ('', 'clean_qq', 'qq_depth.1', 'qq_depth_min.3,break_halves', 'clean_qq,qq_depth_max.2')
     cases = (0, 1, 2)
+    comps2 = ('S', 'W', 'NW', 'SE') if small else A.COMPONENTS
+    sp2 = (0, 1, 4, 6, 8) if small else tuple(range(10))
 
-    def build(cs, sps, js, case):
-        chain = [choose(c, A.COMPONENTS) for c in cs]
-        if first is not None:
-            chain[0] = first
+    def build(cs, sps, js, case, cfg=''):
+        chain = []
+        for i, c in enumerate(cs):
+            if i == 0 and first is not None:
+                chain.append(first)
+            elif i == 1 and second is not None:
+                chain.append(second)
+            else:
+                chain.append(choose(c, A.COMPONENTS if i == 0 else comps2))
         parts = []
         for i, c in enumerate(chain):
-            sp = choose(sps[i], A.spellings(c))
+            k = choose(sps[i], (tuple(range(10)) if i == 0 else sp2) + (10,))
+            if k == 10:     # the bare two-letter quarter: an aliquot only under clean_qq or directly after a half
+                if c in A.QUARTERS and ('clean_qq' in cfg or (i > 0 and chain[i - 1] in A.HALVES)):
+                    sp = c
+                else:
+                    sp = A.spellings(c)[0]
+            else:
+                sp = A.spellings(c)[k]
             sp = (sp, sp.lower(), sp.upper())[case]
             if i > 0:
                 j = choose(js[i - 1], A.JOINERS)
@@ -255,8 +269,9 @@ def ob_api_chains(ob):
         return chain, ''.join(parts)
 
     def run(cs, sps, js, case, ci):
-        chain, text = build(cs, sps, js, choose(case, cases))
-        return chain_verdict(text, chain, choose(ci, cfgs)) is None
+        cfg = choose(ci, cfgs)
+        chain, text = build(cs, sps, js, choose(case, cases), cfg)
+        return chain_verdict(text, chain, cfg) is None
 
     if n == 1:
         def target(c0: int, s0: int, case: int, ci: int):
@@ -276,13 +291,25 @@ def ob_api_chains(ob):
         out = []
         for v in vs[:3]:
             a = v['args']
-            chain = [A.COMPONENTS[cl(a[f'c{i}'], 8)] for i in range(n)]
-            if first is not None:
-                chain[0] = first
+            cfg = cfgs[cl(a['ci'], len(cfgs))]
+            chain = []
+            for i in range(n):
+                if i == 0 and first is not None:
+                    chain.append(first)
+                elif i == 1 and second is not None:
+                    chain.append(second)
+                else:
+                    tab = A.COMPONENTS if i == 0 else comps2
+                    chain.append(tab[cl(a[f'c{i}'], len(tab))])
             parts = []
             case = cl(a['case'], 3)
             for i, c in enumerate(chain):
-                sp = A.spellings(c)[cl(a[f's{i}'], 10)]
+                tab = (tuple(range(10)) if i == 0 else sp2) + (10,)
+                k = tab[cl(a[f's{i}'], len(tab))]
+                if k == 10:
+                    sp = c if (c in A.QUARTERS and ('clean_qq' in cfg or (i > 0 and chain[i - 1] in A.HALVES))) else A.spellings(c)[0]
+                else:
+                    sp = A.spellings(c)[k]
                 sp = (sp, sp.lower(), sp.upper())[case]
                 if i > 0:
                     j = A.JOINERS[cl(a[f'j{i - 1}'], 4)]
@@ -291,7 +318,6 @@ def ob_api_chains(ob):
                     parts.append(j)
                 parts.append(sp)
             text = ''.join(parts)
-            cfg = cfgs[cl(a['ci'], len(cfgs))]
             out.append(violation('aliquot-api-chain', f'Tract({text!r}, config={cfg!r}): {chain_verdict(text, chain, cfg)}; {v["exc"]}', 'c07_chain',
                                  {'text': text, 'chain': chain, 'cfg': cfg}))
         return out
@@ -338,7 +364,7 @@ def obligations(tier):
     for comp in A.COMPONENTS:
         obs.append(Ob(f'm_self_{comp}', 'M', ob_m_self, f'{A.SCRUBBER_OF[comp]} matches every spelling of {comp} exactly', functions=[A.SCRUBBER_OF[comp]],
                       weight=8, timeout=4000, params={'comp': comp, 'K': K, 'cap': 1500 if q else 3600}))
-    for comp in (A.COMPONENTS if not q else ('N', 'NE')):
+    for comp in A.COMPONENTS:
         obs.append(Ob(f'm_cross_{comp}', 'M', ob_m_cross, f'no other scrubber matches inside a spelling of {comp}', functions=list(A.PIPELINE),
                       weight=9, timeout=6000, params={'comp': comp, 'K': 1 if q else 2, 'cap': 600 if q else 1500}))
     for pname in list(A.PIPELINE) + list(A.CLEAN_OF.values()):
@@ -349,8 +375,14 @@ def obligations(tier):
                       weight=6, timeout=3000, params={'which': which}))
     S = ['scrub_aliquots', 'sub_scrubber', 'half_plus_q_scrubber', 'process_half_plus_q_match', 'remove_aliquot_interveners', 'TractPreprocessor', 'Tract.parse']
     obs.append(Ob('api_chain_1', 'S', ob_api_chains, 'single components: every spelling x casing x config', functions=S, weight=4, timeout=3000, params={'n': 1, 'cap': 2700}))
-    for comp in (A.COMPONENTS if not q else ('N', 'E', 'NE', 'SW')):
-        obs.append(Ob(f'api_chain_2_{comp}', 'S', ob_api_chains, f'two-component chains starting with {comp}', functions=S, weight=8, timeout=7000,
-                      params={'n': 2, 'first': comp, 'cap': 6500}))
+    if q:
+        for comp in ('N', 'E', 'NE', 'SW'):
+            obs.append(Ob(f'api_chain_2_{comp}', 'S', ob_api_chains, f'two-component chains starting with {comp}', functions=S, weight=8, timeout=7000,
+                          params={'n': 2, 'first': comp, 'cap': 6500, 'small': True}))
+    else:
+        for c1 in A.COMPONENTS:
+            for c2 in A.COMPONENTS:
+                obs.append(Ob(f'api_chain_2_{c1}_{c2}', 'S', ob_api_chains, f'chains {c1} + {c2}: every spelling pair x joiner x casing x config', functions=S,
+                              weight=8, timeout=7000, params={'n': 2, 'first': c1, 'second': c2, 'cap': 6500}))
     obs.append(Ob('api_bare_quarter', 'S', ob_api_bare, 'bare quarter is an aliquot only under clean_qq or after a half', functions=S, weight=3, timeout=1500))
     return obs
